@@ -90,6 +90,7 @@ static Fields gen(Tape &t) {
   } else {
     ops_to_fields(f, g_history(t, SEG_ANY, false, 6));
     f.seti("i", t.below(64)); f.seti("j", t.below(64)); f.seti("k", t.below(64));
+    f.seti("stepfault", t.chance(4, 5) ? 0 : t.range(1, 6));  // k-th allocation of every producing step fails once
   }
   return f;
 }
@@ -210,7 +211,17 @@ template <class A> static Verdict check_type(const Fields &f, int *minDiff, bool
   // arm 3: objects out of a history
   World<A> w;
   std::vector<Op> ops = ops_from_fields(f);
-  for (auto &op : ops) w.exec(op);
+  {
+    LibcLedger &LL = libc_ledger();
+    struct Off { LibcLedger &l; ~Off() { l.fail_at = 0; } } off{LL};
+    int sf = (int)f.geti("stepfault");
+    for (auto &op : ops) {
+      LL.fail_at = 0;
+      if (sf > 0 && strchr("RBNO", op.kind)) { LL.req = 0; LL.fail_at = (uint64_t)sf; }
+      w.exec(op);
+      LL.fail_at = 0;
+    }
+  }
   std::vector<int> valid;
   for (int k = 0; k < w.size(); k++) if (w.at(k).valid) valid.push_back(k);
   if (valid.size() < 2) return Verdict::pass();
